@@ -198,12 +198,12 @@ def chain_trigger_siblings(prog, chk, rid, tables=('playlist', 'playlistentity')
         for n, t in cats[en]['main'].triggers.items():
             if (t.table or '').lower() in tables:
                 raw = cats[en]['main'].raw.get(('trigger', n))
-                by[n][en] = ' '.join(str(x) for x in sqlmod.norm_tokens(raw.toks)) if raw is not None else str(t.norm)
+                by[n][en] = sqlmod.norm_tokens(raw.toks) if raw is not None else str(t.norm)
         for n, v in cats[en]['main'].views.items():
             if n in views:
                 raw = cats[en]['main'].raw.get(('view', n))
                 if raw is not None:
-                    by['view ' + n][en] = ' '.join(str(x) for x in sqlmod.norm_tokens(raw.toks))
+                    by['view ' + n][en] = sqlmod.norm_tokens(raw.toks)
     for n, d in sorted(by.items()):
         cnt = collections.Counter(d.values())
         major, _ = cnt.most_common(1)[0]
@@ -213,9 +213,15 @@ def chain_trigger_siblings(prog, chk, rid, tables=('playlist', 'playlistentity')
             chk.ok(rid, inst + ' identical', n)
         else:
             for en in odd:
+                a, b = d[en], major
+                k = 0
+                while k < min(len(a), len(b)) and a[k] == b[k]:
+                    k += 1
+                k = max(0, a.rfind(' ', 0, max(0, k - 30)) + 1)
                 chk.violation(rid, '%s|%s differs from its sibling copies' % (en, n), en,
                               '%s: the copy issued by the %s creator differs from the definition the other %d '
-                              'version(s) issue: %s  vs  %s' % (inst, en, len(d) - len(odd), d[en][:160], major[:160]))
+                              'version(s) issue: ... %s  vs  ... %s' % (inst, en, len(d) - len(odd),
+                                                                       a[k:k + 120], b[k:k + 120]))
 
 
 def _underlying(cat, name):
